@@ -186,6 +186,30 @@ def stats(env):
     env.eq('identical trajectories: zero Max', same['Max'], 0); env.eq('identical trajectories: zero RMSE', same['RMSE'], 0)
 
 
+@obligation('C19.matching_time_indices', functions=[f'{APE}:matching_time_indices'], max_paths=256, timeout=300)
+def mti(env):
+    """time association: a stamp of the first sequence is paired with the NEAREST stamp of the (shifted) second one, and only if that
+    nearest stamp is closer than max_diff - whatever the spacing of the stamps relative to max_diff (dense sequences included)"""
+    ape = env.load(APE); T = env.T
+    s1 = env.scalar('a0', regimes=('generic', 'small'))
+    s2 = T.cat([env.scalar(f'b{i}', regimes=('generic', 'small')) for i in range(3)], -1)
+    env.assume('the second sequence is sorted (time stamps)', (s2[0] < s2[1]) & (s2[1] < s2[2]))
+    md = env.scalar('max_diff', positive=True, regimes=('generic', 'large', 'small'))[0]
+    off = env.scalar('offset', regimes=('zero', 'generic'))[0]
+    ds = [(s1[0] - (s2[j] + off)).abs() for j in range(3)]          # |.| splits on signs: linear arithmetic only
+    for u, v in ((0, 1), (1, 2), (0, 2)):
+        env.assume('no exact tie between two stamps (probability zero)', (ds[u] - ds[v]) != 0)
+    for u in range(3):
+        env.assume('no stamp at distance exactly max_diff (probability zero)', (ds[u] - md) != 0)
+    i1, i2 = ape.matching_time_indices(s1, s2, md if env.sym else float(md), off if env.sym else float(off))
+    j = 0
+    for c in (1, 2):
+        if bool(ds[c] < ds[j]): j = c
+    hit = bool(ds[j] < md)
+    env.holds('the stamp is matched iff its nearest partner is closer than max_diff', list(i1) == ([0] if hit else []))
+    env.holds('it is paired with its nearest stamp of the second sequence', list(i2) == ([j] if hit else []))
+
+
 @bounded('C19.geodesic_loss_float', functions=[f'{LOSS}:geodesic_loss'])
 def geo_float(rng, tier):
     """real code, float32 and float64: y = Exp(delta * axis) @ x with a known angle delta, log-uniform from far below sqrt(eps) up to pi:
